@@ -1,5 +1,6 @@
 # C11 - regular expressions: only the range algebra is within reach (see DESIGN.md)
-CLAIMS = {'rangetoken*': 'RangeToken::addRange/sortRanges/compactRanges/mergeRanges/subtractRanges/intersectRanges/expand on lists built from symbolic endpoints: '
+CLAIMS = {'rangetoken_complement': 'RangeToken::complementRanges (with the addRange calls it makes) on every canonical list of one range with symbolic bounds: the fresh token denotes exactly [0,0x10FFFF] minus the class, is canonical, operand unchanged',
+          'rangetoken*': 'RangeToken::addRange/sortRanges/compactRanges/mergeRanges/subtractRanges/intersectRanges/expand on lists built from symbolic endpoints: '
           'result denotes exactly the set-theoretic result for every character; compaction canonicalises'}
 ASSUMPTIONS = ['Token base constructor real; MemoryManager stub']
 OPN = ['merge', 'subtract', 'intersect']
@@ -17,8 +18,19 @@ HARNESSES = [
  # history: compaction by a first operation, then a second operation (2-step scripts)
  dict(name='rangetoken_2ops', entry='harness_rangetoken', srcs=['C11/rangetoken.cpp'], tus=TUS, tiers=('thorough',),
       defs={'thorough': {'NA': 1, 'NB': 1, 'OPS': 2, 'OP': 1, 'OP2': 1}}, unwind={'thorough': 7}, timeout={'thorough': 1700}, mem_gb=10),
+] + ([
+ # RangeToken::match (bitmap below 256 built by doCreateMap + scan above): NO VERDICT within 900 s at NA=2 (the 256-step bitmap loop is unrolled per range and
+ # re-run by the adaptive unwinding) -> gated off, not claimed (DESIGN 7.6)
+ dict(name='rangetoken_match', entry='harness_rangematch', srcs=['C11/rangematch.cpp'], tus=TUS,
+      defs={'quick': {'NA': 1, 'MODE': 0}, 'thorough': {'NA': 2, 'MODE': 0}}, unwind={'quick': 8, 'thorough': 9}, unwind_cap=260, cbmc_flags=['--sat-solver', 'cadical'],
+      timeout={'quick': 900, 'thorough': 1700}, mem_gb=12),
+] if __import__('os').environ.get('VX_C11_MATCH') else []) + [
+ # class negation: complementRanges of an arbitrary canonical list (thorough tier only: 10 minutes, 9 GB)
+ dict(name='rangetoken_complement', entry='harness_rangematch', srcs=['C11/rangematch.cpp'], tus=TUS, tiers=('thorough',),
+      defs={'thorough': {'NA': 1, 'MODE': 1}}, unwind={'thorough': 6}, cbmc_flags=['--sat-solver', 'cadical', '--slice-formula'],
+      timeout={'thorough': 2400}, mem_gb=20),
 ]
 LEVEL_TEXT = ('Bounded model checking of the character-class range algebra (the real RangeToken code): for ALL range lists within the bound (endpoints anywhere in U+0000..U+10FFFF, any order, '
               'overlapping or adjacent) and ALL characters, merge/subtract/intersect denote exactly union/difference/intersection and compaction yields a canonical list.')
 LEVEL_NOTE = ('Only the set algebra of character classes is claimed. The regex parser, compiler and backtracking matcher (RegxParser, RegularExpression::compile/match, Op/Token graphs, category registry) are '
-              'pointer-rich heap structures outside bounded symbolic execution here; the language-level statement of C11 is NOT claimed. Bounds: <=3+2 ranges, <=2 operations.')
+              'pointer-rich heap structures outside bounded symbolic execution here; the language-level statement of C11 is NOT claimed. Bounds: <=3+2 ranges, <=2 operations; class negation (complementRanges) for one canonical range, thorough tier. RangeToken::match (bitmap + scan) has a harness but no verdict (gated off, DESIGN 7.6).')
